@@ -254,10 +254,22 @@ def _cases(env):
         x = _cx_field(env, T, 1, 1, True)
         return (x, env.real('G', 0, 30), env.real('NF', 3, 8)), lambda a: D.EDFA(a[0], a[1], a[2])
 
-    def c_sampler():
+    def c_sampler(noise=True):
+        def f():
+            T.gv(sps=2, R=one)
+            x = T.electrical_signal(list(env.reals('s', 4, -3, 3)), list(env.reals('w', 4, -3, 3)) if noise else None)
+            return (x, 1), lambda a: D.SAMPLER(a[0], a[1])
+        return f
+
+    def c_sampler_dac():
         T.gv(sps=2, R=one)
-        x = T.electrical_signal(list(env.reals('s', 4, -3, 3)), list(env.reals('w', 4, -3, 3)))
-        return (x, 1), lambda a: D.SAMPLER(a[0], a[1])
+        x = D.DAC(list(env.bits('b', 2)), Vout=env.real('Vout', 0.5, 3))
+        return (x, 1), lambda a: (D.SAMPLER(a[0], a[1]), a[0][1:], a[0].copy())
+
+    def c_slices():
+        x = T.electrical_signal(env.arr(list(env.reals('s', 4, -3, 3))))
+        y = T.optical_signal(env.arr(list(env.cplxs('E', 3, -3, 3))))
+        return (x, y), lambda a: (a[0][1:3], a[0].copy(), a[0][::2], a[1][0:2], a[1].copy())
 
     def c_enc():
         b = env.arr(list(env.bits('b', 4)), dtype=bool)
@@ -315,7 +327,7 @@ def _cases(env):
         return (arr,), lambda a: (U.db(a[0]), U.idb(a[0]), U.Q(a[0]), U.dbm(a[0]), U.idbm(a[0]))
 
     return {'PRBS': c_prbs, 'DAC-nrz': c_dac('nrz'), 'DAC-rz': c_dac('rz'), 'LASER': c_laser, 'PM': c_pm, 'MZM': c_mzm, 'EDFA': c_edfa,
-            'SAMPLER': c_sampler, 'PPM_ENCODER': c_enc, 'PPM_DECODER': c_dec, 'HDD': c_hdd, 'SDD': c_sdd,
+            'SAMPLER': c_sampler(True), 'SAMPLER-clean': c_sampler(False), 'SAMPLER-of-DAC': c_sampler_dac, 'slices-clean': c_slices, 'PPM_ENCODER': c_enc, 'PPM_DECODER': c_dec, 'HDD': c_hdd, 'SDD': c_sdd,
             'ook.BER_analizer': c_ber(O), 'ppm.BER_analizer': c_ber(P), 'DM': c_dm, 'FIBER': c_fiber, 'LPF': c_lpf, 'BPF': c_bpf, 'PD': c_pd,
             'utils-dB-Q': c_utils}
 
@@ -373,7 +385,7 @@ def configs(tier):
                 out.append((name, scen_gv_step, dict(s0=s0, N0=N0, pattern=pat, s1=s1, k=k, N1=N1), {}))
         out.append((f'gv-step-pre(sps{s0},N{N0})-call(custom)', scen_gv_step, dict(s0=s0, N0=N0, pattern=('custom',), s1=3, k=3, N1=1), {}))
     out.append(('gv-history-stale-grid', scen_history, dict(s0=2, N0=2, s1=3), {}))
-    fns = ['PRBS', 'DAC-nrz', 'DAC-rz', 'LASER', 'PM', 'MZM', 'EDFA', 'SAMPLER', 'PPM_ENCODER', 'PPM_DECODER', 'HDD', 'SDD',
+    fns = ['PRBS', 'DAC-nrz', 'DAC-rz', 'LASER', 'PM', 'MZM', 'EDFA', 'SAMPLER', 'SAMPLER-clean', 'SAMPLER-of-DAC', 'slices-clean', 'DM', 'FIBER', 'LPF', 'BPF', 'PD', 'PPM_ENCODER', 'PPM_DECODER', 'HDD', 'SDD',
            'ook.BER_analizer', 'ppm.BER_analizer', 'utils-dB-Q']
     for fn in fns:
         out.append((f'purity-{fn}', scen_purity, dict(fn=fn), {}))
